@@ -441,13 +441,43 @@ func R28() Rule {
 					}
 					// preceded by the failed lookup
 					guarded := false
+					// the lookup written out inline: the construction comes after a loop over the existing
+					// families / columns that returns the match from inside
+					for _, lp := range rangeLoops(fn) {
+						if lp.elem == nil || !(elemIs(lp.elem, "Family") || elemIs(lp.elem, "Column")) {
+							continue
+						}
+						returnsFromLoop := false
+						for _, r := range returnsIn(fn) {
+							if lp.body.Dominates(r.Block()) {
+								returnsFromLoop = true
+							}
+						}
+						if returnsFromLoop && lp.header.Dominates(a.Block()) && !lp.body.Dominates(a.Block()) {
+							guarded = true
+						}
+					}
+					isLookup := func(call *ssa.Call) bool {
+						sc := call.Call.StaticCallee()
+						return sc != nil && (core.FuncName(sc) == "getFamily" || core.FuncName(sc) == "getColumn")
+					}
 					for _, f := range core.FactsAt(a.Block()) {
+						// a lookup returning (x, ok): the not-ok edge
+						if ex, isEx := core.Resolve(f.Cond).(*ssa.Extract); isEx && !f.Polarity && isBoolType(ex.Type()) {
+							if call, isC := ex.Tuple.(*ssa.Call); isC && isLookup(call) {
+								guarded = true
+							}
+						}
 						bin, ok := f.Cond.(*ssa.BinOp)
 						if !ok || !core.IsNilConst(bin.Y) {
 							continue
 						}
 						isNil := (bin.Op == token.EQL) == f.Polarity
-						if call, ok := core.Resolve(bin.X).(*ssa.Call); ok && isNil {
+						src := core.Resolve(bin.X)
+						if ex, isEx := src.(*ssa.Extract); isEx {
+							src = ex.Tuple
+						}
+						if call, ok := src.(*ssa.Call); ok && isNil {
 							if sc := call.Call.StaticCallee(); sc != nil && (core.FuncName(sc) == "getFamily" || core.FuncName(sc) == "getColumn") {
 								guarded = true
 							}
@@ -798,7 +828,27 @@ func R31() Rule {
 			}
 		}
 		// the disk constructor removes the directory when nuke is set, before opening
-		if nd := P.Func(core.PkgBttest, "newDiskDb"); nd != nil {
+		// (every function with a bool parameter that opens a leveldb directory itself: the constructor,
+		// or the reopen closures when it is inlined into them)
+		var openers []*ssa.Function
+		for _, f := range P.SrcFuncs(core.PkgBttest) {
+			hasBool := false
+			for _, pa := range f.Params {
+				if isBoolType(pa.Type()) {
+					hasBool = true
+				}
+			}
+			if !hasBool {
+				continue
+			}
+			for _, ci := range core.AllCalls(f) {
+				if ci.IsFunc(pkgLdb, "OpenFile") {
+					openers = append(openers, f)
+					break
+				}
+			}
+		}
+		for _, nd := range openers {
 			var rm, open ssa.Instruction
 			rmGuarded := false
 			for _, ci := range core.AllCalls(nd) {
@@ -815,7 +865,7 @@ func R31() Rule {
 				}
 			}
 			ok := rm != nil && open != nil && rmGuarded && core.InstrReaches(rm, open)
-			c.Check(ok, "R31", "clear/newDiskDb-nuke", nd.Pos(), "nuke ⇒ RemoveAll(path) before OpenFile(path)", "the on-disk constructor does not wipe the directory when asked to: Clear / re-created tables keep their old rows")
+			c.Check(ok, "R31", "clear/"+core.FuncName(nd)+"-nuke", nd.Pos(), "nuke ⇒ RemoveAll(path) before OpenFile(path)", "the on-disk constructor does not wipe the directory when asked to: Clear / re-created tables keep their old rows")
 		}
 		// one backend iterator per range scan; ascendRange is only called by the four Ascend* methods
 		if ar := P.Func(core.PkgBttest, "(*leveldbRows).ascendRange"); ar != nil {
